@@ -119,7 +119,7 @@ def run_script(script):
     try:
         with qloop.watchdog(10):
             return qloop.run_q(body, seed=sched.get("seed", 0), shuffle=sched.get("shuffle", False), jitter_ms=sched.get("jitter_ms", 0))
-    except Exception as e:  # noqa
+    except (Exception, qloop.Hang) as e:  # noqa
         return {"error": f"{type(e).__name__}: {e}"}
 
 
@@ -496,7 +496,7 @@ def run(ctx):
             if key in seen:
                 continue
             seen.add(key)
-            small = shrink(script, key)
+            small = script if key in ("run-failed", "no-return") else shrink(script, key)
             r2 = run_script(small)
             w2 = [(k, w, g) for k, w, g in monitor(small, r2) if k == key]
             ctx.violation(key, {"kind": "script", "script": small}, w2[0][1] if w2 else want, w2[0][2] if w2 else got)
